@@ -1,6 +1,43 @@
 (* C01 — acceptance and language-preserving transformations. Only statements live here. *)
-From PFL Require Import Spec.Enfa Model.Enfa Proofs.EnfaAccepts.
+From Coq Require Import List NArith.
+From PFL Require Import Base.ListSet Spec.Enfa Model.Enfa Model.EnfaOps Proofs.EnfaAccepts
+  Proofs.EnfaClasses Proofs.EnfaRemoveEps Proofs.EnfaDet Oracle.EnfaEquiv Oracle.EnfaEquivSound.
 
-Theorem C01_accepts : forall A w, accepts A w = true <-> Lang A w.
-Proof. exact accepts_spec. Qed.
+(* accepts(w) is true exactly when some run from a start state spells w and ends in a final state *)
+Theorem C01_accepts : forall (Q : Type) (E : EqDec Q) (A : enfa Q) (w : list N),
+  accepts A w = true <-> Lang A w.
+Proof. exact (@accepts_spec). Qed.
 Print Assumptions C01_accepts.
+
+(* the overriding loops of the NFA and DFA classes, under the invariants those classes maintain *)
+Theorem C01_accepts_nfa : forall (Q : Type) (E : EqDec Q) (A : enfa Q) (w : list N),
+  eps_free A -> (accepts_nfa A w = true <-> Lang A w).
+Proof. exact (@accepts_nfa_spec). Qed.
+Print Assumptions C01_accepts_nfa.
+
+Theorem C01_accepts_dfa : forall (Q : Type) (E : EqDec Q) (A : enfa Q) (w : list N),
+  is_dfa A -> (accepts_dfa A w = true <-> Lang A w).
+Proof. exact (@accepts_dfa_spec). Qed.
+Print Assumptions C01_accepts_dfa.
+
+Theorem C01_remove_eps : forall (Q : Type) (E : EqDec Q) (A : enfa Q),
+  wf A -> lang_eq (remove_eps A) A /\ eps_free (remove_eps A).
+Proof. intros Q E A W. split; [exact (remove_eps_lang A W)|exact (remove_eps_eps_free A)]. Qed.
+Print Assumptions C01_remove_eps.
+
+(* subset construction; [b] = close under epsilon (EpsilonNFA) or not (NFA: then no epsilon edge may exist);
+   [n] is the exploration fuel (2^n steps), the statement excludes the out-of-fuel result *)
+Theorem C01_determinize : forall (Q : Type) (E : EqDec Q) (C : Canon Q) (b : bool) (A : enfa Q) (n : nat) (D : enfa (list Q)),
+  (b = false -> eps_free A) -> wf A -> determinize b A n = Some D -> lang_eq D A /\ is_dfa D.
+Proof.
+  intros Q E C b A n D Hb W HD. split.
+  - exact (determinize_lang b A Hb (proj1 (proj2 W)) n D HD).
+  - exact (determinize_is_dfa b A n D HD).
+Qed.
+Print Assumptions C01_determinize.
+
+(* the instance-level certificate used for every automaton pyformlang returns (minimize, copy included) *)
+Theorem C01_equiv_certificate : forall (Q1 Q2 : Type) (E1 : EqDec Q1) (E2 : EqDec Q2) (C1 : Canon Q1) (C2 : Canon Q2)
+  (A : enfa Q1) (B : enfa Q2) (n : nat), enfa_equiv A B n = Some true -> lang_eq A B.
+Proof. exact (@enfa_equiv_sound). Qed.
+Print Assumptions C01_equiv_certificate.
